@@ -208,6 +208,10 @@ def resumed(mode, tdk):
         why = None
         if res.escaped or res.thread_exc:
             why = 'exception %r / %r' % (res.escaped, res.thread_exc)
+        elif sorted(e[2] for e in res.trace if e[1] == 'test') != ['a0', 'b0', 'b1', 'u0', 'x0']:
+            why = 'each selected layer runs exactly once: tests executed over all processes %r (mode %s)' % (sorted(e[2] for e in res.trace if e[1] == 'test'), mode)
+        elif [e[2][0] for e in res.trace if e[1] == 'test'] not in (['u', 'a', 'x', 'b', 'b'],):
+            why = 'layers do not run as contiguous groups in the layer order: %r (mode %s)' % ([e[2] for e in res.trace if e[1] == 'test'], mode)
         elif seq != ['u', 'a', 'x', 'b']:
             why = 'layers ran in order %r, the layer order is unit tests, w.A, w.A2, w.B (mode %s, %d children)' % (seq, mode, len(res.children))
     LAST = ('resumed', mode, tdk, why, tuple(seq), len(res.children))
